@@ -87,6 +87,8 @@ pub enum Ev {
     FailStorm { ctx: u8, count: u16 },
     /// `count` valid instantiations in a row: handles stay unique, old operators stay put
     OpBurst { ctx: u8, count: u16 },
+    /// `count` registrations in a row (macros bulk:0.. and operators bulkop0..)
+    RegisterBurst { ctx: u8, count: u16 },
     Clear,
     /// write `<file>` under `<root>/resources/`; text None = make it unreadable (`how`)
     WriteResource { root: u8, file: String, text: String },
@@ -333,7 +335,7 @@ fn write_file(path: &std::path::Path, bytes: &[u8]) {
 
 // (the two name pools overlap on purpose: the same name may be registered both as a
 // macro and as an operator; the two registrations are independent of each other)
-const MACRO_NAMES: &[&str] = &["m:a", "m:b", "m:c", "geo:in", "neu:out", "f:x", "f:y", "f:way", "f:way_too", "g:x", "g:last", "plainres", "rec:a", "addone", "shadow", "u:op"];
+const MACRO_NAMES: &[&str] = &["bulk:7", "bulk:250", "m:a", "m:b", "m:c", "geo:in", "neu:out", "f:x", "f:y", "f:way", "f:way_too", "g:x", "g:last", "plainres", "rec:a", "addone", "shadow", "u:op"];
 const FILE_MACROS: &[(&str, &str)] = &[("f", "x"), ("f", "y"), ("f", "way"), ("f", "way_too"), ("g", "x"), ("g", "last")];
 const OP_NAMES: &[&str] = &["addk", "shadow", "addone", "helmert", "noop", "u:op", "m:a", "geo:in", "plainres"];
 
@@ -348,7 +350,13 @@ fn gen_step(rng: &mut Rng) -> String {
                 format!("addk k={}", rng.range(1, 9))
             }
         }
-        3 => "shadow".to_string(),
+        3 => {
+            if rng.chance(0.2) {
+                (*rng.pick(&["bulkop3", "bulkop299", "bulkop1000"])).to_string()
+            } else {
+                "shadow".to_string()
+            }
+        }
         4 => (*rng.pick(MACRO_NAMES)).to_string(),
         5 => match rng.below(6) {
             4 => format!("gridshift grids={}", NT_GRID),
@@ -460,7 +468,7 @@ impl Engine for RegSim {
                 "macro invocations carry no arguments (argument passing is C04's subject), so that a macro's value is its body's value",
                 "the sequential cache model is exact: a grid lookup is served from the cache if the name is cached, else from the first root holding the file",
             ],
-            required_probes: &["shadow_builtin_after_creation", "reregistration_after_creation", "foreign_handle", "forged_handle", "file_macro_from_resource_file", "file_macro_from_register", "register_item_at_eof_without_terminator", "register_item_first_in_file", "register_cr_only", "runtime_beats_file", "second_root_used", "broken_file_falls_through", "grid_replaced_while_cached", "clear_then_new_version", "refusing_constructor", "recursive_macro", "op_after_clear_old_handle_alive", "op_from_another_os_thread", "storm_of_failing_instantiations", "burst_of_instantiations", "context_created_before_its_search_roots", "ntv2_operator_created"],
+            required_probes: &["shadow_builtin_after_creation", "reregistration_after_creation", "foreign_handle", "forged_handle", "file_macro_from_resource_file", "file_macro_from_register", "register_item_at_eof_without_terminator", "register_item_first_in_file", "register_cr_only", "runtime_beats_file", "second_root_used", "broken_file_falls_through", "grid_replaced_while_cached", "clear_then_new_version", "refusing_constructor", "recursive_macro", "op_after_clear_old_handle_alive", "op_from_another_os_thread", "storm_of_failing_instantiations", "burst_of_instantiations", "burst_of_registrations", "context_created_before_its_search_roots", "ntv2_operator_created"],
             exhaustive: false,
         }
     }
@@ -507,6 +515,8 @@ impl Engine for RegSim {
                 6 => {
                     if rng.chance(0.08) {
                         events.push(Ev::FailStorm { ctx, count: *rng.pick(&[3u16, 40, 130, 260]) });
+                    } else if rng.chance(0.05) {
+                        events.push(Ev::RegisterBurst { ctx, count: *rng.pick(&[10u16, 70, 300, 1100]) });
                     } else if rng.chance(0.05) {
                         events.push(Ev::OpBurst { ctx, count: *rng.pick(&[20u16, 300, 700]) });
                     } else {
@@ -952,6 +962,25 @@ impl Engine for RegSim {
                     }
                     changed_world = true;
                     rec.logf(|| format!("e{} ctx{} {} failing instantiations", k, c, count));
+                }
+                Ev::RegisterBurst { ctx, count } => {
+                    sig.str("Y");
+                    let c = *ctx as usize % n_ctx;
+                    if *count >= 256 {
+                        rec.probe("burst_of_registrations");
+                    }
+                    for i in 0..*count {
+                        let name = format!("bulk:{}", i);
+                        let text = if i % 2 == 0 { "addone" } else { "helmert x=2 | addone" };
+                        ctxs[c].get_mut().register_resource(&name, text);
+                        world.ctxs[c].resources.insert(name, text.to_string());
+                        let (lib, model) = constructor(0);
+                        let opname = format!("bulkop{}", i);
+                        ctxs[c].get_mut().register_op(&opname, lib);
+                        world.ctxs[c].user_ops.insert(opname, model);
+                    }
+                    changed_world = true;
+                    rec.logf(|| format!("e{} ctx{} burst of {} registrations", k, c, count));
                 }
                 Ev::OpBurst { ctx, count } => {
                     sig.str("U");
